@@ -107,8 +107,8 @@ class NumStr:
     __hash__ = None
 
 
-def mk_term(cr, cc, rs, re, sr, sc):
-    t = new_term()
+def mk_term(cr, cc, rs, re, sr, sc, encoding=None):
+    t = new_term(encoding)
     for i in range(ROWS):
         for j in range(COLS):
             t.w[i][j] = CELLS[i * COLS + j]
@@ -141,14 +141,30 @@ def si_ok(t):
 _STATE = dict(cr=Int(1, ROWS), cc=Int(1, COLS), rs=Int(1, ROWS), re=Int(1, ROWS), sr=Int(1, ROWS), sc=Int(1, COLS))
 
 
-@obligation(params=dict(k=Int(0, 3), **_STATE),
+@obligation(params=dict(k=Int(0, 5), **_STATE),
             tags={2: 'CR', 3: 'LF', 4: 'BS', 5: 'printable', 6: 'printable at the last cell (wrap/scroll)'},
-            timeout=300, note='P1: write_ch from any valid screen state')
+            timeout=300, note='P1: write_ch from any valid screen state; k=4: the character given as a byte; k=5: a '
+                              'three-byte character given to a utf-8 terminal one byte per call')
 def P1_write_ch(k, cr, cc, rs, re, sr, sc):
-    k = pick(k, 0, 3)
-    t = mk_term(cr, cc, rs, re, sr, sc)
-    ch = ['\r', '\n', '\x08', 'X'][k]
-    t.write_ch(ch)
+    k = pick(k, 0, 5)
+    X = 'X'
+    if k == 5:
+        X = '\u20ac'
+        t = mk_term(cr, cc, rs, re, sr, sc, 'utf-8')
+        t.write_ch(b'\xe2')
+        t.write_ch(b'\x82')
+        if (t.cur_r, t.cur_c) != (cr, cc) or t.w[cr - 1][cc - 1] != CELLS[(cr - 1) * COLS + cc - 1]:
+            return 0                    # an incomplete character changed the screen
+        t.write_ch(b'\xac')
+        k = 3
+    elif k == 4:
+        t = mk_term(cr, cc, rs, re, sr, sc)
+        t.write_ch(b'X')
+        k = 3
+    else:
+        t = mk_term(cr, cc, rs, re, sr, sc)
+        ch = ['\r', '\n', '\x08', 'X'][k]
+        t.write_ch(ch)
     if not si_ok(t):
         return 0
     if k == 0:
@@ -161,13 +177,13 @@ def P1_write_ch(k, cr, cc, rs, re, sr, sc):
         return 4 if (t.cur_r, t.cur_c) == (cr, cc - 1 if cc > 1 else 1) else 0
     # printable: lands in the cursor cell unless that row was scrolled away afterwards
     if cc < COLS:
-        if t.w[cr - 1][cc - 1] != 'X' or (t.cur_r, t.cur_c) != (cr, cc + 1):
+        if t.w[cr - 1][cc - 1] != X or (t.cur_r, t.cur_c) != (cr, cc + 1):
             return 0
         return 5
     if t.cur_c != 1:
         return 0
     if cr < ROWS:
-        if t.w[cr - 1][cc - 1] != 'X' or t.cur_r != cr + 1:
+        if t.w[cr - 1][cc - 1] != X or t.cur_r != cr + 1:
             return 0
     elif t.cur_r != ROWS:
         return 0
@@ -270,6 +286,31 @@ def P3_chunking(k, c1, c2, asbytes):
     return 3
 
 
+@obligation(params=dict(k=Int(0, len(CORPUS) - 1), asbytes=Bool()),
+            tags={2: 'text, one character per call', 3: 'bytes, one byte per call', 4: 'bytes with a multi-byte character'},
+            timeout=300, split=('asbytes',),
+            note='P4: feeding the input one unit at a time through process() (the documented single-character entry '
+                 'point; for bytes input one byte per call, so every multi-byte character is cut at every position) '
+                 'never raises and gives the same screen, cursor, region and parser state as one write()')
+def P4_process_units(k, asbytes):
+    k = pick(k, 0, len(CORPUS) - 1)
+    text = CORPUS[k]
+    data = text.encode('utf-8') if asbytes else text
+    with patched(A, open=_null_open):
+        one = new_term('utf-8' if asbytes else None)
+        one.write(data)
+        many = new_term('utf-8' if asbytes else None)
+        for i in range(len(data)):
+            many.process(data[i:i + 1])
+    if not si_ok(one) or not si_ok(many):
+        return 0
+    if _snapshot(one) != _snapshot(many):
+        return 0
+    if not asbytes:
+        return 2
+    return 4 if len(data) != len(text) else 3
+
+
 def dry_runs():
     base = dict(cr=2, cc=2, rs=1, re=3, sr=1, sc=1)
     for st in range(len(STATES)):
@@ -279,6 +320,11 @@ def dry_runs():
         yield 'P3_chunking', dict(k=k, c1=2, c2=5 if len(CORPUS[k]) >= 5 else 2, asbytes=False)
         n = len(CORPUS[k].encode('utf-8'))
         yield 'P3_chunking', dict(k=k, c1=min(3, n), c2=min(7, n), asbytes=True)
+    for k in (0, 5, len(CORPUS) - 3, len(CORPUS) - 2):
+        yield 'P4_process_units', dict(k=k, asbytes=False)
+        yield 'P4_process_units', dict(k=k, asbytes=True)
+    for k in range(6):
+        yield 'P1_write_ch', dict(k=k, **base)
 
 
 PROBES = ['screen']      # representation probes (harness/probes.py) this harness depends on
